@@ -67,11 +67,119 @@ def run(ctx: Ctx) -> None:
         run_flap(ctx)
     except ImportError as e:
         ctx.notes.append(f'end-to-end flap stream not run: {e}')
+    run_after_reload(ctx)
+
+
+def after_reload_case(case: dict) -> dict:
+    """old file, session up, reload to the new file (consumed by the ESTABLISHED session's main loop), API
+    commands, loss, next session: {'table': what the remote holds then, 'want': configured now + API routes
+    not since withdrawn}.  Real Reactor / Configuration / Peer._run (harness/reloadrig.py)."""
+    from harness import reloadrig as R
+
+    rig = R.ReloadRig()
+    try:
+        mk = lambda routes: {'procs': [1], 'nbrs': [{'name': 1, 'key': 1, 'fams': [1, 2], 'routes': routes}]}  # noqa: E731
+        rig.write_file('\n'.join(R.config_lines(mk(case['old']))) + '\n')
+        if not rig.reload():
+            return {'error': f'initial configuration refused: {rig.cfg.error}'}
+        rig.establish(1)
+        rig.settle()
+        want = {n: (at, h) for n, at, h in case['old']}
+        for reload_routes, api in case['rounds']:
+            if reload_routes is not None:
+                rig.write_file('\n'.join(R.config_lines(mk(reload_routes))) + '\n')
+                if not rig.reload():
+                    return {'error': f'reload refused: {rig.cfg.error}'}
+                rig.settle()
+                old_cfg, new_cfg = {n: (at, h) for n, at, h in case['old']}, {n: (at, h) for n, at, h in reload_routes}
+                for n in set(old_cfg) | set(new_cfg):
+                    # replace_reload: what the file no longer has goes, what it adds or changes comes; the rest stays
+                    if n not in new_cfg:
+                        if want.get(n) == old_cfg[n]:
+                            want.pop(n, None)
+                    elif new_cfg[n] != old_cfg.get(n):
+                        want[n] = new_cfg[n]
+                case = dict(case, old=reload_routes)
+            for action, n, at, h in api:
+                ans = rig.api_route(1, action, n, at, h)
+                rig.settle()
+                if ans != ['done']:
+                    return {'error': f'api answered {ans}'}
+                if action == 'announce':
+                    want[n] = (at, h)
+                else:
+                    want.pop(n, None)
+        live = rig.table(1)
+        if not rig.lose(1):
+            return {'error': 'no established session to lose'}
+        for _ in range(3):
+            if rig.establish(1) == 'up':
+                break
+            rig.settle()
+        rig.settle()
+        return {'error': None, 'table': rig.table(1), 'want': want, 'live': live}
+    finally:
+        rig.close()
+
+
+def run_after_reload(ctx: Ctx) -> None:
+    """Session loss after a configuration reload the ESTABLISHED session consumed and after the API commands that
+    followed it; the session that follows the loss must carry the configured routes of the file in force plus the
+    API routes not since withdrawn (the first session's own table is checked too: it is C17's clause)."""
+    from harness import ribrig as B
+    from harness.props import C17
+
+    rng = ctx.rng
+    seen = set()
+    for _ in range(16 if ctx.tier == 'quick' else 300):
+        if ctx.time_left() < 8:
+            ctx.notes.append('after-reload stream stopped by the time budget')
+            break
+        routes = [tuple(r[:3]) for r in C17.gen_routes(rng, [1, 2], rng.choice([2, 3, 4]))]  # no watchdog: plain configured routes
+        kept = list(routes)
+        victim = kept.pop(rng.randrange(len(kept)))
+        how = rng.choice(['removed', 'removed', 'changed', 'untouched'])
+        if how == 'changed':
+            kept.append((victim[0], 1 + victim[1] % 3, victim[2]))
+        elif how == 'untouched':
+            kept.append(victim)
+        at, h = (victim[1], victim[2]) if rng.random() < 0.5 else (rng.choice([1, 2, 3]), rng.choice([1, 2]))
+        api = [('announce', victim[0], at, h)]
+        if rng.random() < 0.3:
+            api.append((rng.choice(['announce', 'withdraw']), rng.choice(routes)[0], rng.choice([1, 2, 3]), 1))
+        rounds = [(kept, api)]
+        if rng.random() < 0.25:
+            rounds.append((None, [(rng.choice(['announce', 'withdraw']), rng.choice(sorted(n for n in B.NLRIS if n not in (5, 8))), rng.choice([1, 2, 3]), 1)]))
+        case = {'old': routes, 'rounds': rounds}
+        res = after_reload_case(case)
+        ctx.evaluations += 1
+        ctx.count('after-reload-case')
+        ctx.count('after-reload:' + how)
+        if res['error']:
+            ctx.disagreements.append(Disagreement('after-reload-rig', case, None, res['error']))
+            continue
+        ctx.nontrivial(['after-reload', case])
+        if res['live'] != res['want']:
+            ctx.count('after-reload:first-session-table-differs (C17)')
+            continue  # the table of the session that saw the reload is C17's clause; nothing to resynchronise against
+        if res['table'] != res['want']:
+            ctx.count('after-reload-oracle-fail')
+            canon = ['after-reload', 'table']
+            if json.dumps(canon) in seen:
+                continue
+            seen.add(json.dumps(canon))
+            ctx.failures.append(Failure('rib-history', canon, {'after_reload': True, 'case': case}, f'session lost after a reload ({how}: prefix {victim[0]}) and API commands {api}: the next session gives the peer {res["table"]}, it held {res["want"]} when the session was lost'))
 
 
 def replay(path: str) -> int:
     data = json.loads(open(path).read())
     rp = data['replay']
+    if rp.get('after_reload'):
+        c = rp['case']
+        c = {'old': [tuple(r) for r in c['old']], 'rounds': [(None if rr is None else [tuple(r) for r in rr], [tuple(x) for x in api]) for rr, api in c['rounds']]}
+        res = after_reload_case(c)
+        print(res)
+        return 0 if not res['error'] and res['table'] == res['want'] else 1
     if rp.get('flap'):
         from harness import sessionrig
         sessionrig.install()
